@@ -221,8 +221,12 @@ def rule_s3(ctx: Ctx) -> None:
     s = sel[0]
     pos_branch, neg_branch = (s.body, s.orelse) if unparse(s.test) == flag else (s.orelse, s.body)
 
+    sel_names = set()
+
     def chosen(branch) -> Optional[str]:
         if len(branch) == 1 and isinstance(branch[0], (ast.Assign, ast.AnnAssign)) and branch[0].value is not None:
+            tgt = branch[0].target if isinstance(branch[0], ast.AnnAssign) else branch[0].targets[0]
+            sel_names.add(unparse(tgt))
             return unparse(branch[0].value)
         return None
 
@@ -245,7 +249,7 @@ def rule_s3(ctx: Ctx) -> None:
             obj = unparse(st.targets[0])
         if isinstance(st, ast.If) and obj is not None and unparse(st.test) == f"{obj}.applies()" and len(st.body) == 1 and "append" in unparse(st.body[0]) and obj in unparse(st.body[0]) and not st.orelse:
             ok = True
-    if ok and unparse(lp.iter) == "strategies":
+    if ok and len(sel_names) == 1 and unparse(lp.iter) in sel_names:
         ctx.ok("C19-S3", fs.where, "same step for every selected strategy: construct on the basis, keep iff applies()", lp, fs)
     else:
         ctx.violation("C19-S3", fs, lp, "the per-strategy step is not `obj = strategy(basis); if obj.applies(): keep obj` over the selected list")
@@ -263,7 +267,16 @@ def rule_s4(ctx: Ctx) -> None:
     ctx.run(check_skeleton, ctx, "C19-S4", fm, ["return PinWords.has_finite_simples(self.basis)"], "finitely-many-simples strategy applies iff PinWords.has_finite_simples(basis)", required_calls=["has_finite_simples"])
 
 
+GENERIC_FILES = ['permuta/enumeration_strategies/__init__.py', 'permuta/enumeration_strategies/abstract_strategy.py', 'permuta/enumeration_strategies/core_strategies.py', 'permuta/enumeration_strategies/insertion_encodable.py', 'permuta/enumeration_strategies/finitely_many_simples.py']
+
+
 def variants():
+    from ..selftest import generic_silent
+
+    return _variants() + generic_silent(GENERIC_FILES)
+
+
+def _variants():
     from ..selftest import V, insert_stmt, reformat_only, rename_local, replace_expr, replace_stmt
 
     IN, AB, CO, IE, FM = ("permuta/enumeration_strategies/__init__.py", "permuta/enumeration_strategies/abstract_strategy.py", "permuta/enumeration_strategies/core_strategies.py",
